@@ -617,6 +617,9 @@ class LiveRun:
             # is no longer configured): it appears in every order-stream image from now on
             ins = {"selectionId": s.get("sel", 11), "handicap": 0.0, "side": "BACK", "orderType": "LIMIT",
                    "limitOrder": {"size": 2.0, "price": 2.0, "persistenceType": "LAPSE"}, "customerOrderRef": s.get("ref", "zzzzzzzzzzzzz-1234567890")}
+            if s.get("known"):      # placed by an earlier incarnation of a strategy this instance runs: to be adopted
+                self.nforeign = getattr(self, "nforeign", 0) + 1
+                ins["customerOrderRef"] = "%s-%018d" % (self.strategies[0].name_hash, 900000000000000000 + self.nforeign)
             self.x.new_bet(s.get("mid", "1.3"), ins, "other")
             self.dirty_since_snap = True
             self.step("foreign", mid=s.get("mid", "1.3"))
@@ -666,12 +669,17 @@ class LiveRun:
                     ctx = st._invested.get((mid, sel, 0))
                     # live trades that have a live bet at the exchange (what a restarted instance can find there)
                     livex = 0
+                    phantom = False
                     for o in mk.blotter.strategy_selection_orders(st, sel, 0):
                         b = self.x.bets.get(o.bet_id) if o.bet_id else None
                         if b is not None and b["status"] == "EXECUTABLE":
                             livex += 1
+                        # a starting-price order whose placement failed never reached the exchange, yet its liability is
+                        # still in the figures: nothing a restarted instance could adopt
+                        if b is None and o.order_type.ORDER_TYPE.name != "LIMIT" and o.status.value not in ("Violation", "Pending"):
+                            phantom = True
                     out["%s|%s|%s" % (st.name, mid, sel)] = {"win": pence(e["worst_possible_profit_on_win"]), "lose": pence(e["worst_possible_profit_on_lose"]),
-                                                             "ntrades": len(ctx.trades) if ctx else 0, "nlive": len(ctx.live_trades) if ctx else 0, "nlivex": livex,
+                                                             "ntrades": len(ctx.trades) if ctx else 0, "nlive": len(ctx.live_trades) if ctx else 0, "nlivex": livex, "phantom": phantom,
                                                              "norders": len(mk.blotter.strategy_selection_orders(st, sel, 0))}
         return out
 
